@@ -4,10 +4,57 @@ package funcfile
 
 // Contracts for govc (see /verif/DESIGN.md, C08 / C10). Comment-only file.
 
+// (compiling a definition and logging never touch the line scanner of the file being loaded)
 //@ func createAndAddFunc
 //@   requires compiler != nil
+//@   modifies world except ghost sc_n, ghost sc_done
+//@ extern rare/pkg/logger.Printf
+//@   modifies world except ghost sc_n, ghost sc_done
+
+// ---- C10: the text of a definition is exactly what the file says ----
+// The file is read line by line (ghost: sc_n lines read so far, sc_line(scanner, k) the text of
+// line k, sc_done once Scan has returned false). A line's payload is the line without its '#'
+// comment, trimmed; blank payloads are skipped; a payload ending in a backslash continues on the
+// next non-blank line with the backslash removed AND NOTHING ELSE inserted; any other payload
+// completes the definition (sc_done is 1 once Scan has returned false, else 0). ff_acc(scanner, k) is the definition text accumulated after line k
+// (it starts afresh after a completing line).
+//@ ghost sc_n(bufio.Scanner) int
+//@ ghost sc_done(bufio.Scanner) int
+//@ smt
+//@ (declare-fun sc_line (Int Int) Str)
+//@ (define-fun ff_trimmed ((ff!sc Int) (ff!k Int)) Str
+//@   (str_trim (let ((ff!l (sc_line ff!sc ff!k))) (ite (< (str_index_rune ff!l 35) 0) ff!l (ssub ff!l 0 (str_index_rune ff!l 35))))))
+//@ (define-fun ff_terminal ((ft!sc Int) (ft!k Int) (ft!emp Str) (ft!bs Str)) Bool
+//@   (and (not (= (ff_trimmed ft!sc ft!k) ft!emp)) (not (str_has_suffix (ff_trimmed ft!sc ft!k) ft!bs))))
+//@ (define-fun-rec ff_acc ((fa!sc Int) (fa!k Int) (fa!emp Str) (fa!bs Str)) Str
+//@   (ite (<= fa!k 0) fa!emp
+//@     (let ((fa!base (ite (and (>= fa!k 2) (ff_terminal fa!sc (- fa!k 1) fa!emp fa!bs)) fa!emp (ff_acc fa!sc (- fa!k 1) fa!emp fa!bs))) (fa!l (ff_trimmed fa!sc fa!k)))
+//@       (ite (= fa!l fa!emp) fa!base (ite (str_has_suffix fa!l fa!bs) (scat fa!base (str_trim_suffix fa!l fa!bs)) (scat fa!base fa!l))))))
+//@ end
+//@ pred ff_cur(sc, k) := if k >= 1 && ff_terminal(sc, k, "", "\\") then "" else ff_acc(sc, k, "", "\\")
+//@ extern bufio.NewScanner
+//@   pure
+//@   ensures result != nil && fresh(result) && sc_n(result) == 0 && sc_done(result) == 0
+//@ extern bufio.(*Scanner).Scan
+//@   params (this)
+//@   modifies ghost sc_n(this), ghost sc_done(this)
+//@   ensures old(sc_done(this)) != 0 ==> !result
+//@   ensures result ==> sc_n(this) == old(sc_n(this)) + 1 && sc_done(this) == 0
+//@   ensures !result ==> sc_n(this) == old(sc_n(this)) && sc_done(this) == 1
+//@ extern bufio.(*Scanner).Text
+//@   params (this)
+//@   pure
+//@   ensures result == sc_line(this, sc_n(this))
+//@ func trimAfter
+//@   pure
+//@   ensures result == (if str_index_rune(s, r) < 0 then s else s[:str_index_rune(s, r)])
 //@ func LoadDefinitions
 //@   requires compiler != nil && r != nil
+//@   assert at "args := strings.SplitN(phrase" : phrase == ff_acc(scanner, sc_n(scanner), "", "\\")
+//@   loop 1 invariant compiler != nil && scanner != nil && ret != nil && sc_n(scanner) >= 0 && (sc_done(scanner) == 0 || sc_done(scanner) == 1)
+//@   loop 1 invariant sc_done(scanner) == 1 || sc_n(scanner) == 0 || ff_terminal(scanner, sc_n(scanner), "", "\\")
+//@   loop 2 invariant compiler != nil && scanner != nil && ret != nil && sc_n(scanner) >= 0 && (sc_done(scanner) == 0 || sc_done(scanner) == 1)
+//@   loop 2 invariant (sc_done(scanner) == 1 && sb_content(addrof(sb)) == "") || (sc_done(scanner) == 0 && sb_content(addrof(sb)) == ff_cur(scanner, sc_n(scanner)))
 //@ func LoadDefinitionsFile
 //@   requires compiler != nil
 //@ func keyBuilderToFunction
